@@ -313,13 +313,16 @@ def evaluate(prop, cases, workdir, tag, shard=250, jobs=12):
 # --------------------------------------------------------------------------
 # shrinking
 
-def shrink(prop, case, workdir, want, rounds=40):
+def shrink(prop, case, workdir, want, rounds=40, budget_s=None):
     """Greedy delta-debugging: prop.shrink(case) yields smaller inputs; a
     candidate is kept when, re-run on the implementation, it still fails the
     same way (want = 'spec' or 'model')."""
     cur = case
+    t_end = time.time() + (budget_s or float(os.environ.get("VERIF_SHRINK_S") or 75))
     for _ in range(rounds):
-        cands = list(prop.shrink(cur))[:400]
+        if time.time() > t_end:
+            break
+        cands = list(prop.shrink(cur))[:120]
         if not cands:
             break
         inp = os.path.join(workdir, "shrink_in.jsonl")
